@@ -13,13 +13,13 @@ import (
 
 // Fault kinds applied to the reply of the FaultPos-th received line.
 const (
-	FaultNone     = iota
-	FaultOutput   // extra output text printed behind the echo
-	FaultGarble   // the echo is garbled
-	FaultStall    // echo, but no further answer (no prompt)
-	FaultClose    // connection closed right behind the echo
-	FaultNoEcho   // answer without echoing the command
-	FaultReplace  // the regular output of the command is replaced by FaultText
+	FaultNone    = iota
+	FaultOutput  // extra output text printed behind the echo
+	FaultGarble  // the echo is garbled
+	FaultStall   // echo, but no further answer (no prompt)
+	FaultClose   // connection closed right behind the echo
+	FaultNoEcho  // answer without echoing the command
+	FaultReplace // the regular output of the command is replaced by FaultText
 )
 
 type Scenario struct {
